@@ -1046,4 +1046,51 @@ theorem C16_failed_write_safe (fs : FS) (old new : Content) (w j : Nat) (h : fs.
 example : failRun [2, 2] saveOps { main := some [1], tmp := some [9], bak := some [0] } 0 0
     = { main := some [1], tmp := some [], bak := some [0] } := by decide
 
+/-! ### a source started while a save is in progress -/
+
+theorem mem_tagsOf_of_lastUpd (h : List Ev) (t : Tag) (m : Msg) (hm : lastUpd h t = some m) : t ∈ tagsOf h := by
+  induction h generalizing m with
+  | nil => simp [lastUpd] at hm
+  | cons e r ih =>
+    cases e with
+    | save => simpa [tagsOf] using ih m (by simpa [lastUpd] using hm)
+    | upd t' m' =>
+      simp only [lastUpd] at hm
+      cases hl : lastUpd r t with
+      | some x => simp [tagsOf, ih x hl]
+      | none =>
+        rw [hl] at hm
+        by_cases ht : t' = t
+        · simp [tagsOf, ht]
+        · have : (t' == t) = false := by simpa using ht
+          simp [this] at hm
+
+/-- **A source started while a save is in progress (or when no save is pending) gets the saved trigger
+settings**: it reads the latest TRIGGER message of the history — the start waits for the save, it never
+skips the read. -/
+theorem C16_start_restores_saved_triggers (low : String → String) (cfg : List (String × Msg)) (h : List Ev)
+    (hv : Valid h) (hinj : LowerInj low (tagsOf h ++ saveAdds)) (m : Msg)
+    (hm : lastUpd h "TRIGGER" = some m) (hns : noSave.contains (low "TRIGGER") = false) (inSave : Bool)
+    (hq : inSave = true ∨ (run low (Cache.init cfg) h).1.pending = false) :
+    startRestore low (run low (Cache.init cfg) h).1 inSave "TRIGGER" = some m := by
+  have hmem := mem_tagsOf_of_lastUpd h "TRIGGER" m hm
+  have hpers : persistent low "TRIGGER" = true := by
+    simp only [persistent, hns, Bool.not_false, Bool.and_true, Bool.and_eq_true, bne_iff_ne, ne_eq,
+      Bool.not_eq_true', List.contains_eq_mem, decide_eq_false_iff_not]
+    decide
+  have key : ∀ view, chkSaved low h view = true → view.lookup (low "TRIGGER") = some m := by
+    intro view hc
+    unfold chkSaved at hc
+    rw [List.all_eq_true] at hc
+    have := hc "TRIGGER" hmem
+    simp only [hpers, Bool.not_true, Bool.false_or, beq_iff_eq] at this
+    rw [this, hm]
+  unfold startRestore
+  cases inSave with
+  | true => exact key _ (C16_saved_has_latest low cfg h hv hinj)
+  | false =>
+    rcases hq with hq | hq
+    · cases hq
+    · exact key _ (C16_saved_when_quiet low cfg h hv hinj hq)
+
 end DastardV.C16
